@@ -1,4 +1,5 @@
 //! C08 -- programs start at 'start', follow labels/calls/returns exactly, halt at the end.
+use crate::asm::*;
 use crate::cli::*;
 use crate::clicheck::*;
 use crate::common::*;
@@ -282,6 +283,138 @@ fn eval_cli(c: &C8Case) -> CaseOutcome {
     CaseOutcome::Pass { nontrivial: nt, classes: vec!["c08/cli".into()], digest: fnv_str(&rendered.text) }
 }
 
+/// "for any nesting and any number of calls": recursion to depth n, chains of n distinct procedures, n sequential
+/// calls that return, n sequential calls that leave the procedure by a jump (stale return entries pile up)
+pub fn deep_program(kind: u8, n: u16) -> Program {
+    let i0 = |mn: &'static str, ops: Vec<Opd>| Item::Ins(Insn::new(mn, ops));
+    let r = |x: R16| Opd::R16(x);
+    let imm = |v: u16| Opd::Imm(v, ImmKind::SW);
+    let name = |s: &str| Opd::Name(s.to_string());
+    let mut code: Vec<Item> = Vec::new();
+    match kind {
+        0 => {
+            code.push(Item::Proc {
+                name: "rec".into(),
+                body: vec![
+                    i0("cmp", vec![r(R16::CX), imm(0)]),
+                    i0("je", vec![name("base")]),
+                    i0("add", vec![r(R16::AX), r(R16::CX)]),
+                    i0("sub", vec![r(R16::CX), imm(1)]),
+                    i0("call", vec![name("rec")]),
+                    i0("add", vec![r(R16::BX), imm(1)]),
+                    Item::Label("base".into()),
+                ],
+            });
+            code.push(Item::Label("start".into()));
+            code.push(i0("mov", vec![r(R16::AX), imm(0)]));
+            code.push(i0("mov", vec![r(R16::BX), imm(0)]));
+            code.push(i0("mov", vec![r(R16::CX), imm(n)]));
+            code.push(i0("call", vec![name("rec")]));
+        }
+        1 => {
+            // p_0 is the leaf, p_i calls p_{i-1} and counts the return
+            for i in 0..n {
+                let mut body = vec![i0("add", vec![r(R16::AX), imm(1)])];
+                if i > 0 {
+                    body.push(i0("call", vec![name(&format!("p_{}", i - 1))]));
+                    body.push(i0("add", vec![r(R16::BX), imm(1)]));
+                }
+                code.push(Item::Proc { name: format!("p_{}", i), body });
+            }
+            code.push(Item::Label("start".into()));
+            code.push(i0("mov", vec![r(R16::AX), imm(0)]));
+            code.push(i0("mov", vec![r(R16::BX), imm(0)]));
+            code.push(i0("call", vec![name(&format!("p_{}", n.max(1) - 1))]));
+        }
+        2 => {
+            code.push(Item::Proc { name: "f".into(), body: vec![i0("add", vec![r(R16::AX), imm(3)]), i0("ret", vec![]), i0("add", vec![r(R16::AX), imm(100)])] });
+            code.push(Item::Label("start".into()));
+            code.push(i0("mov", vec![r(R16::AX), imm(0)]));
+            code.push(i0("mov", vec![r(R16::CX), imm(n)]));
+            code.push(Item::Label("again".into()));
+            code.push(i0("call", vec![name("f")]));
+            code.push(i0("add", vec![r(R16::BX), imm(1)]));
+            code.push(i0("loop", vec![name("again")]));
+        }
+        _ => {
+            code.push(Item::Proc { name: "probe".into(), body: vec![i0("add", vec![r(R16::AX), imm(1)]), i0("jmp", vec![name("back")])] });
+            code.push(Item::Label("start".into()));
+            code.push(i0("mov", vec![r(R16::AX), imm(0)]));
+            code.push(i0("mov", vec![r(R16::CX), imm(n)]));
+            code.push(Item::Label("again".into()));
+            code.push(i0("call", vec![name("probe")]));
+            code.push(Item::Label("back".into()));
+            code.push(i0("loop", vec![name("again")]));
+        }
+    }
+    code.push(Item::Print(PrintStmt::Reg));
+    Program { data: vec![], code }
+}
+
+fn deep_family(ctx: &Ctx) {
+    let mut ns: Vec<u16> = vec![1, 2, 3, 100, 255, 256, 257, 300, 1000, 4000];
+    if ctx.tier == Tier::Thorough {
+        ns.extend([20_000u16, 65_535]);
+    }
+    let mut jobs: Vec<(u8, u16)> = Vec::new();
+    for kind in 0..4u8 {
+        for n in &ns {
+            if kind == 1 && *n > 1000 {
+                continue;
+            }
+            jobs.push((kind, *n));
+        }
+    }
+    let outcomes: Vec<((u8, u16), CaseOutcome)> = jobs
+        .par_iter()
+        .map(|(kind, n)| {
+            let prog = deep_program(*kind, *n);
+            let rendered = render_program(&prog, &Layout::plain());
+            let flat = flatten(&prog);
+            let image = data_image(&prog.data);
+            let lines: Vec<usize> = vec![0; flat.ops.len()];
+            let cfg = RunCfg { interpreted: false, script: &[], lines: &lines, max_steps: 40 * (*n as usize) + 1000, input_lines: None, buf_fill: None };
+            let rr = ref_run(&flat, &image, &cfg, &Quirks::none());
+            let exp = crate::c17::blank_lines(&normalise(&rr.events));
+            let out = run_cli(rendered.text.as_bytes(), Stdin::Closed, false, 1 << 20, 120_000);
+            let name = ["recursion", "procedure-chain", "sequential-calls", "calls-left-by-jump"][*kind as usize];
+            let replay = json!({"kind":"cli","source":rendered.text,"stdin":"","interpreted":false,"blank_line_numbers":true,
+                "expected_events": exp.iter().map(|e| format!("{:?}", e)).collect::<Vec<_>>()});
+            let o = if matches!(out.status, Status::Timeout | Status::SpawnError(_)) {
+                CaseOutcome::Inconclusive(format!("{} n={}: {:?}", name, n, out.status))
+            } else if rr.stop != Stop::Halt {
+                CaseOutcome::Inconclusive(format!("{} n={}: reference stopped with {:?}", name, n, rr.stop))
+            } else if !out.clean() {
+                CaseOutcome::Fail { key: format!("c08|deep|{}|abnormal-exit", name), what: format!("{} n={}: status {:?} {}", name, n, out.status, out.err_str().lines().next().unwrap_or("")), replay }
+            } else {
+                match tokenize(&out.stdout) {
+                    Ok(t) if crate::c17::blank_lines(&t) == exp => CaseOutcome::Pass { nontrivial: *n >= 100, classes: vec![format!("c08/deep/{}", name)], digest: fnv_str(&rendered.text) },
+                    Ok(t) => CaseOutcome::Fail { key: format!("c08|deep|{}|final-state", name), what: format!("{} n={}: {}", name, n, crate::c17::first_diff(&exp, &crate::c17::blank_lines(&t))), replay },
+                    Err(e) => CaseOutcome::Fail { key: format!("c08|deep|{}|output", name), what: format!("{} n={}: {}", name, n, e.chars().take(200).collect::<String>()), replay },
+                }
+            };
+            ((*kind, *n), o)
+        })
+        .collect();
+    for (_, o) in outcomes {
+        ctx.add_evals(1);
+        match o {
+            CaseOutcome::Pass { nontrivial, classes, digest } => {
+                for c in classes {
+                    ctx.class(&c, 1);
+                }
+                if nontrivial {
+                    ctx.nontrivial_digest(digest);
+                }
+            }
+            CaseOutcome::Fail { key, what, replay } => ctx.fail(Failure { key, what, replay }),
+            CaseOutcome::Inconclusive(w) => ctx.inconclusive(&w),
+            CaseOutcome::Known(_) => {}
+        }
+    }
+    ctx.sample(json!({"kind":"c08-deep","family":"recursion n=300","source": render_program(&deep_program(0, 300), &Layout::plain()).text}));
+}
+
 pub fn run(ctx: &Ctx) {
     ctx.set_rule("structured terminating programs (marker blocks = write one character with INT 21h/AH=2, forward jumps, counter-guarded backward jumps via LOOP and SUB/JNZ, conditional skips after CMP, procedures with explicit/early/implied ret calling earlier procedures, labels before/after instructions, before a procedure, at end of file, several in a row, 'start' first / after other code / as the last thing in the file): (1) all main bodies of <= 4 tokens over a 13-symbol alphabet x 6 structural variants enumerated exhaustively; (2) proptest-generated larger programs; L2: real Preprocessor + Interpreter under a transcribed driver loop, executed-instruction index trace, stop reason, marker output, final registers and memory compared with a reference interpreter over the AST; L3: the CLI's stdout compared with the reference marker trace. Non-trivial = taken backward jump, call depth >= 2, label adjacent to procedure/print/end of file, or a procedure called twice; distinct by source text.");
     ctx.assume("a ret with no active call (label before a procedure, falling into a definition) stops the run with a diagnostic; only the trace up to that point is compared");
@@ -401,6 +534,7 @@ pub fn run(ctx: &Ctx) {
     if cli_available() {
         let n = ctx.tier.pick(400usize, 4_000usize);
         run_cases(ctx, "c08-cli", n, c8_s, eval_cli, |c| json!({"source": render_program(&build_program(&c.g), &Layout { choices: c.layout_choices.clone(), comments: c.comments, trailing_newline: true, pack_lines: c.pack }).text}));
+        deep_family(ctx);
     } else {
         ctx.harness_error("CLI binary not built");
     }
